@@ -43,6 +43,8 @@ func runC07(c *Ctx) {
 		switch only {
 		case "stress":
 			c07Stress(c)
+		case "hits":
+			c07ConcurrentHits(c)
 		case "porcupine":
 			c07Porcupine(c)
 		case "pairs":
@@ -59,6 +61,7 @@ func runC07(c *Ctx) {
 	wg.Wait()
 	c07Porcupine(c)
 	c07Stress(c)
+	c07ConcurrentHits(c)
 	c07RangeTable(c)
 }
 
@@ -507,5 +510,63 @@ func c07Stress(c *Ctx) {
 	// evictions" for the cache code much more reliably than waiting for a torn value
 	for key, rs := range racelog.Dedup(selfRaces("/internal/cache.", "router.(*cacheCtl)", "router.cacheKey", "router.packCacheMsg", "router.unpackCacheMsg")) {
 		c.Violation("data-race:cache:"+c20ShortEntry(rs[0]), fmt.Sprintf("data race in the cache code during concurrent Store/Get/eviction (%d reports):\n%s", len(rs), rs[0].Text), map[string]any{"fn": "c07Stress", "key": key, "report": rs[0].Text})
+	}
+}
+
+// c07ConcurrentHits: a handful of large values stored once in an amply sized cache, then many
+// readers looking the same keys up at the same time, each lookup slowed down inside its copy
+// (delay point pool.get.large). Nothing is stored, evicted or expired meanwhile, so every lookup
+// must hit: concurrent lookups of one entry must not get in each other's way.
+func c07ConcurrentHits(c *Ctx) {
+	mc, err := cache.NewMemoryCache(64 << 20)
+	if err != nil {
+		c.Inconclusive("NewMemoryCache: " + err.Error())
+		return
+	}
+	defer mc.Close()
+	const nKeys = 3
+	now := time.Now()
+	for k := 0; k < nKeys; k++ {
+		mc.Store([]byte(fmt.Sprintf("hot-key-%d", k)), now, now.Add(time.Hour), bytes.Repeat([]byte{byte(k + 1)}, 5000), false)
+	}
+	time.Sleep(50 * time.Millisecond)
+	verifhook.Set("pool.get.large", "sleep(1ms,50.0%)")
+	defer verifhook.Set("pool.get.large", "off")
+	var hits, misses, wrong atomic.Int64
+	var wg sync.WaitGroup
+	per := c.N(300, 5000)
+	for rd := 0; rd < 8; rd++ {
+		wg.Add(1)
+		go func(rd int) {
+			defer wg.Done()
+			r := gen.New(c.Seed, "c07hits/r", rd)
+			for i := 0; i < per; i++ {
+				k := r.Intn(nKeys)
+				v, _, _ := mc.Get([]byte(fmt.Sprintf("hot-key-%d", k)))
+				switch {
+				case v == nil:
+					misses.Add(1)
+				case len(v) != 5000 || v[0] != byte(k+1) || v[4999] != byte(k+1):
+					wrong.Add(1)
+					pool.ReleaseBuf(v)
+				default:
+					hits.Add(1)
+					pool.ReleaseBuf(v)
+				}
+			}
+		}(rd)
+	}
+	wg.Wait()
+	c.Ev.Eval(int(hits.Load() + misses.Load() + wrong.Load()))
+	c.Ev.Count("concurrent_lookups_hit", hits.Load())
+	_, fired := verifhook.Hits("pool.get.large")
+	c.Ev.Count("concurrent_lookups_delayed_inside_copy", int64(fired))
+	switch {
+	case wrong.Load() > 0:
+		c.Violation("concurrent-lookups:wrong-value", fmt.Sprintf("%d of %d concurrent lookups returned a value that is not the one stored under the key", wrong.Load(), hits.Load()+misses.Load()+wrong.Load()), map[string]any{"fn": "c07ConcurrentHits"})
+	case misses.Load() > 0:
+		c.Violation("concurrent-lookups:miss-on-live-entry", fmt.Sprintf("%d of %d lookups of %d entries stored once (lifetime 1 h, cache 64 MiB, nothing stored or evicted meanwhile) missed while other lookups of the same entry were in progress: the query would go upstream although the entry is alive", misses.Load(), hits.Load()+misses.Load(), nKeys), map[string]any{"fn": "c07ConcurrentHits", "misses": misses.Load(), "hits": hits.Load()})
+	default:
+		c.Ev.Distinct("concurrent-lookups", "all-hit", fired > 0)
 	}
 }
